@@ -158,9 +158,34 @@ theorem length_exec (M : Machine G L) (s : G × List L) (e : Ev) : (M.exec s e).
     split <;> simp
   | restart now => simp [exec]
 
+/-- what an event does to the local state of thread `j` -/
+theorem exec_getElem? (M : Machine G L) (s : G × List L) (e : Ev) (j : Nat) :
+    (M.exec s e).2[j]? =
+      match e with
+      | .step t => if t = j then (s.2[j]?).map (fun l => (M.step s.1 l).2) else s.2[j]?
+      | .restart _ => (s.2[j]?).map M.restartL := by
+  cases e with
+  | restart now => simp [exec]
+  | step t =>
+    simp only [exec]
+    cases h : s.2[t]? with
+    | none =>
+      by_cases htj : t = j
+      · subst htj; simp [h]
+      · simp [htj]
+    | some l =>
+      by_cases htj : t = j
+      · subst htj
+        rcases List.getElem?_eq_some_iff.1 h with ⟨hlt, hl⟩
+        simp [hlt, hl]
+      · simp [htj]
+
 end Machine
 
 /-! ## counting over a thread list with one element replaced -/
+
+theorem mem_of_getElem?' {α : Type} (l : List α) (i : Nat) (a : α) (h : l[i]? = some a) : a ∈ l :=
+  List.mem_iff_getElem?.2 ⟨i, h⟩
 
 theorem countP_set {α : Type} (p : α → Bool) (l : List α) (i : Nat) (a x : α)
     (h : l[i]? = some a) :
@@ -195,6 +220,43 @@ theorem mem_set_cases {α : Type} (l : List α) (i : Nat) (x y : α) :
       rcases h with h | h
       · simp [h]
       · rcases ih i h with h | h <;> simp [h]
+
+/-- an element of `l.set t x` is `x` or sits in `l` at another index -/
+theorem mem_set_index {α : Type} (l : List α) (t : Nat) (x y : α) (h : y ∈ l.set t x) :
+    y = x ∨ ∃ j, j ≠ t ∧ l[j]? = some y := by
+  rcases List.mem_iff_getElem?.1 h with ⟨j, hj⟩
+  rw [List.getElem?_set] at hj
+  by_cases htj : t = j
+  · subst htj
+    simp at hj
+    exact .inl hj.2.symm
+  · simp [htj] at hj
+    exact .inr ⟨j, fun h => htj h.symm, hj⟩
+
+theorem countP_ge_two {α : Type} (p : α → Bool) (l : List α) (i j : Nat) (a b : α)
+    (hi : l[i]? = some a) (hj : l[j]? = some b) (hne : i ≠ j) (ha : p a = true) (hb : p b = true) :
+    2 ≤ l.countP p := by
+  induction l generalizing i j with
+  | nil => simp at hi
+  | cons c l ih =>
+    cases i with
+    | zero =>
+      cases j with
+      | zero => exact absurd rfl hne
+      | succ j =>
+        simp at hi hj; subst hi
+        have : 0 < l.countP p := List.countP_pos_iff.2 ⟨b, mem_of_getElem?' l j b hj, hb⟩
+        simp [List.countP_cons, ha]; omega
+    | succ i =>
+      cases j with
+      | zero =>
+        simp at hi hj; subst hj
+        have : 0 < l.countP p := List.countP_pos_iff.2 ⟨a, mem_of_getElem?' l i a hi, ha⟩
+        simp [List.countP_cons, hb]; omega
+      | succ j =>
+        simp at hi hj
+        have := ih i j hi hj (fun h => hne (by rw [h]))
+        simp [List.countP_cons]; omega
 
 theorem forall_set {α : Type} (P : α → Prop) (l : List α) (i : Nat) (x : α)
     (hl : ∀ y ∈ l, P y) (hx : P x) : ∀ y ∈ l.set i x, P y := by
